@@ -5,6 +5,7 @@ import (
 	"encoding/binary"
 	"encoding/json"
 	"fmt"
+	"io"
 	"sync"
 
 	"github.com/alibaba/RedisShake/pkg/libs/log"
@@ -62,7 +63,11 @@ func c11concChild(raw json.RawMessage, scratch string) {
 						fail("loader-panic", "loader %d of %d panicked on an intact file: %v", k, cs.Loaders, x)
 					}
 				}()
-				l := rdb.NewLoader(bytes.NewReader(files[k]))
+				var src io.Reader = bytes.NewReader(files[k])
+				if k%2 == 1 {
+					src = &splitReader{data: files[k], sizes: []int{1, 4096, 3, 100, 65536}} // a socket-like source
+				}
+				l := rdb.NewLoader(src)
 				if err := l.Header(); err != nil {
 					fail("intact-file-rejected", "loader %d: header of an intact file rejected: %v", k, err)
 					return
